@@ -309,7 +309,7 @@ pub fn text_scale_c03(r: &mut Run, name: &str) -> Result<(), MachineryError> {
                 for &w in &widths {
                     cx.eval();
                     cx.nontrivial();
-                    let cfg = Cfg { width: w, sep, alg: Alg::Opt(DEFAULT_PEN), spl: Spl::None, bw: false, ii, si, crlf: false };
+                    let cfg = Cfg { entry: Entry::Ref, width: w, sep, alg: Alg::Opt(DEFAULT_PEN), spl: Spl::None, bw: false, ii, si, crlf: false };
                     let o = cfg.opts();
                     let d = || cfg.d();
                     let lines = match cx.guard(|| wrap(&text, &o)) {
